@@ -39,3 +39,13 @@ func (m *UpstreamClusterController) VerifC10Stop() {
 	m.cancel()
 	m.DeleteAll()
 }
+
+// VerifC10WrapHandler wraps the handler of the queue of a controller built by the public
+// NewUpstreamClusterController (to be called before Run): the harness counts handler invocations (quiescence of
+// the real worker loop, number of invocations in flight at once) and turns a panic into a result.
+func (m *UpstreamClusterController) VerifC10WrapHandler(wrap func(syncqueue.SyncHandler) syncqueue.SyncHandler) {
+	m.queue.VerifC10WrapHandler(wrap)
+}
+
+// VerifC10QueueLen is the number of items waiting in the controller's work queue.
+func (m *UpstreamClusterController) VerifC10QueueLen() int { return m.queue.Queue().Len() }
